@@ -26,6 +26,7 @@ CLAIMS = {
  "C15": ("model_checking", "Iterator over the replica of every bounded history with every upper/lower bound combination and a symbolic amount, compared with a reference range computation; panics and a non-closed channel are violations.", "§5 C15"),
  "C16": ("model_checking", "Symbolic size bound n in [0,total+2] against the twin that merges unbounded, over the replicas of every bounded history and three orderings; panics are implicit violations.", "§5 C16"),
  "C20": ("model_checking", "Keystore (LRU cache + datastore, interpreted from source) under every bounded sequence of create/get/has over two instances sharing a datastore, compared with a model map; identity creation executed symbolically with Dolev-Yao signatures: stability and the three signature relations are solver obligations.", "§5 C20"),
+ "C17": ("model_checking", "Every bounded history of appends / joins / publications on replicas sharing one store, written through the real CBOR codec path (IOCbor.Write -> Dag().Add): at every block write the written block's links must already be stored; a symbolic write fault (one or two consecutive failing writes at every position) must surface as an error and leave no dangling reference; every returned identifier is loaded back and compared.", "§5 C17"),
  "C18": ("model_checking", "Entries with every combination of 0..2 predecessors/references are created through the real link-encrypting codec path (PreSign, NonceRefForEntry, ToJsonableEntry, IOCbor.Write, enc.boxed); the stored abstract document is inspected for traversable links and for any occurrence of the link identifiers outside a sealed box; three readers (same / other / no key) decode it symbolically.", "§5 C18"),
  "C19": ("model_checking", "Order laws as SMT obligations over all 2^64 clock times, symbolic clock-id bytes and symbolic hash ranks; sort.SliceStable interpreted from source for all input permutations of 3 entries.", "§5 C19"),
 }
